@@ -207,7 +207,7 @@ type lexModel struct {
 func lexerFuncs(p *Prog) []*ssa.Function {
 	var out []*ssa.Function
 	for _, fn := range p.Funcs {
-		if strings.HasSuffix(p.File(fn.Pos()), "/expr_lexer.go") {
+		if strings.HasSuffix(p.unitFile(fn), "/expr_lexer.go") {
 			out = append(out, fn)
 		}
 	}
